@@ -29,6 +29,12 @@ structure RInv (c : UCmp) (σ : State) (i : Nat) (r : Reader) : Prop where
   rc : ∀ s mf, r.seq? = some s → r.mems? = some mf → ∀ k,
       view c (rBufs σ mf ++ r.ver?.getD σ.tabs) k s = view c σ.hist k s
   results : ∀ kv ∈ r.results, ∃ s, r.seq? = some s ∧ kv.2 = view c σ.hist kv.1 s
+  /-- the pinned frozen buffer is not the write buffer (it never grows again) -/
+  fOld : ∀ mf f, r.mems? = some mf → mf.2 = some f → f < σ.mem
+  /-- the pinned frozen buffer is older than the pinned write buffer -/
+  rorder : ∀ mf, r.mems? = some mf → ∀ a ∈ optBuf σ mf.2, ∀ b ∈ getBuf σ mf.1, a.seq < b.seq
+  /-- what the reader may see of its pinned tables is history -/
+  verHist : ∀ s v, r.seq? = some s → r.ver? = some v → ∀ e ∈ v, e.seq ≤ s → e ∈ σ.hist
 
 def Readers (c : UCmp) (σ : State) : Prop := ∀ i r, σ.readers[i]? = some r → RInv c σ i r
 
@@ -47,14 +53,19 @@ theorem rBufs_sub {σ : State} (hb : Basic σ) (mf : Nat × Option Nat) : ∀ e 
 
 /-- generic: the state moves on without touching the tables; whatever is added to the history or to a
 buffer is above the published position; the reader's registration stays -/
-theorem rinv_grow {σ σ' : State} {i : Nat} {r : Reader}
+theorem rinv_grow {σ σ' : State} {i : Nat} {r : Reader} (hb : Basic σ)
     (hH : ∃ ext, σ'.hist = σ.hist ++ ext ∧ ∀ e ∈ ext, σ.pub < e.seq)
-    (hBuf : ∀ id, ∃ ext, getBuf σ' id = getBuf σ id ++ ext ∧ ∀ e ∈ ext, σ.pub < e.seq)
+    (hBuf0 : ∀ id, ∃ ext, getBuf σ' id = getBuf σ id ++ ext ∧
+      (∀ e ∈ ext, σ.pub < e.seq ∧ ∀ x ∈ σ.hist, x.seq < e.seq) ∧ (id ≠ σ.mem → ext = []))
     (hmem : σ'.mem = σ.mem) (hfr : σ'.frozen = σ.frozen ∨ σ'.frozen = none)
     (htabs : r.ver? = none → σ'.tabs = σ.tabs) (hpub : σ.pub ≤ σ'.pub)
     (hsn : ∀ s, (Owner.reader i, s) ∈ σ.snaps → (Owner.reader i, s) ∈ σ'.snaps)
     (hr : RInv c σ i r) : RInv c σ' i r := by
   obtain ⟨ext, hH1, hH2⟩ := hH
+  have hBuf : ∀ id, ∃ ext, getBuf σ' id = getBuf σ id ++ ext ∧ ∀ e ∈ ext, σ.pub < e.seq := by
+    intro id
+    obtain ⟨e1, h1, h2, _⟩ := hBuf0 id
+    exact ⟨e1, h1, fun e he => (h2 e he).1⟩
   have hOpt : ∀ f, ∃ ext, optBuf σ' f = optBuf σ f ++ ext ∧ ∀ e ∈ ext, σ.pub < e.seq := by
     intro f
     cases f with
@@ -149,15 +160,35 @@ theorem rinv_grow {σ σ' : State} {i : Nat} {r : Reader}
   · intro kv hkv
     obtain ⟨s, h1, h2⟩ := hr.results kv hkv
     exact ⟨s, h1, by rw [h2, hviewH _ s (hr.seqLe s h1)]⟩
+  · intro mf f hm hf; rw [hmem]; exact hr.fOld mf f hm hf
+  · intro mf hm a ha b hb'
+    cases hf : mf.2 with
+    | none => rw [hf] at ha; cases ha
+    | some f =>
+      have hlt := hr.fOld mf f hm hf
+      obtain ⟨e1, h1, _, h3⟩ := hBuf0 f
+      have he1 : e1 = [] := h3 (by omega)
+      have ha' : a ∈ optBuf σ mf.2 := by
+        rw [hf] at ha ⊢
+        have : a ∈ getBuf σ' f := ha
+        rw [h1, he1, List.append_nil] at this
+        exact this
+      obtain ⟨e2, h4, h5, _⟩ := hBuf0 mf.1
+      rw [h4] at hb'
+      rcases List.mem_append.1 hb' with hb' | hb'
+      · exact hr.rorder mf hm a ha' b hb'
+      · exact (h5 b hb').2 a (hb.optBuf_hist _ a ha')
+  · intro s v hs hv e he hle
+    rw [hH1]; exact List.mem_append_left _ (hr.verHist s v hs hv e he hle)
 
 /-- nothing but `pub`, `snaps` and reader-irrelevant fields changed -/
-theorem rinv_frame {σ σ' : State} {i : Nat} {r : Reader}
+theorem rinv_frame {σ σ' : State} {i : Nat} {r : Reader} (hb : Basic σ)
     (hh : σ'.hist = σ.hist) (hbufs : σ'.bufs = σ.bufs) (hmem : σ'.mem = σ.mem)
     (hfr : σ'.frozen = σ.frozen ∨ σ'.frozen = none) (htabs : σ'.tabs = σ.tabs) (hpub : σ.pub ≤ σ'.pub)
     (hsn : ∀ s, (Owner.reader i, s) ∈ σ.snaps → (Owner.reader i, s) ∈ σ'.snaps)
     (hr : RInv c σ i r) : RInv c σ' i r := by
-  apply rinv_grow ⟨[], by rw [hh, List.append_nil], by simp⟩ _ hmem hfr (fun _ => htabs) hpub hsn hr
+  apply rinv_grow hb ⟨[], by rw [hh, List.append_nil], by simp⟩ _ hmem hfr (fun _ => htabs) hpub hsn hr
   intro id
-  exact ⟨[], by simp [getBuf, hbufs], by simp⟩
+  exact ⟨[], by simp [getBuf, hbufs], by simp, fun _ => rfl⟩
 
 end GoLevel.Conc
